@@ -33,7 +33,9 @@ RULE = ("cases = (expression: 1-3 operands over 1-3 index variables, every varia
         "attributes), per-operand declared shapes larger than needed, fibers built with default 7 inside tensors of default "
         "0, values written as floats / bools, operand objects already used by an earlier run, the program executed twice "
         "into the same output (2 x dense), coordinates 0, 9, 10, 11, 100; NON-INTEGRAL operand values v/4 (exact dyadic "
-        "floats) compared through multilinearity: result * 4**k = the integer result on the values v). small scope "
+        "floats) compared through multilinearity: result * 4**k = the integer result on the values v; the tiling of a rank "
+        "requested as `T / parts` (partition count) instead of splitUniform(step); two-kernel PIPELINES in which the output "
+        "object of the first kernel is operand 0 of the second, tiled / swizzled there). small scope "
         "(seed-independent): every expression shape x every loop order x every style on a fixed operand set, and "
         "every pair of leaf fibers over 3 coordinates x {absent, 0, 1, -1} for dot / element-wise / accumulate; every "
         "triple of leaf fibers over 2 coordinates for the right-nested / hoisted three-factor product; every 2-row 0/1 "
@@ -131,7 +133,7 @@ def _widen(rng, c):
         var["fmtU"] = [[l for l in t if r() < 0.5] for t in opranks]
     if zranks and r() < 0.15:
         var["zU"] = [l for l in zranks if r() < 0.6]
-    if c["declared"] and r() < 0.2:
+    if c["declared"] and not c.get("tdiv") and r() < 0.2:
         var["shapes"] = [c["n"] + rng.choice([0, 2, 5]) for _ in range(k)]
     if r() < 0.1:
         var["fdefault"] = 7
@@ -148,6 +150,50 @@ def _widen(rng, c):
     if var:
         c["var"] = var
     return c
+
+
+def _to_tdiv(c, parts_by_v):
+    """request the tilings of the listed (already tiled) variables as `T / parts`: the library then
+    takes step = ceil(declared shape / parts); needs the same declared shape on all operands"""
+    n = c["n"]
+    d = dict(parts_by_v)
+    c["tdiv"] = [[v, p] for v, p in parts_by_v]
+    c["tiles"] = [[v, (n + d[v] - 1) // d[v]] if v in d else [v, st] for v, st in c["tiles"]]
+    c["declared"] = True
+    return c
+
+
+def mk_then(first, nv, ops, out, order, tiles, style, trees):
+    """second kernel of a pipeline: its operand 0 (ranks ops[0]) is the OUTPUT OBJECT of `first`"""
+    t = mk_case(nv, ops, out, order, tiles, style, first["n"], [None] + list(trees), "then")
+    del t["prop"]
+    t["ops"][0] = {"ranks": list(ops[0]), "prev": True}
+    if "univ" in first:
+        t["univ"] = first["univ"]
+    first["then"] = t
+    return first
+
+
+def _rand_then(rng, c):
+    """a random second kernel over the first one's output (and possibly one more operand)"""
+    _, zr = plan(c)
+    k = len(zr)
+    n = c["n"] if "univ" not in c else len(c["univ"])
+    op0 = list(range(k))
+    nv = k + (1 if rng.random() < 0.3 else 0)
+    ops, trees = [op0], []
+    if nv > k or rng.random() < 0.7:
+        extra = [v for v in range(nv) if v >= k or rng.random() < 0.6] or [0]
+        ops.append(_perm(rng, extra))
+        t = _rand_tree(rng, len(extra), n)
+        if "univ" in c:
+            t = _remap(t, len(extra), c["univ"])
+        trees.append(t)
+    out = [v for v in range(nv) if rng.random() < 0.5]
+    tiles = [[v, rng.randrange(1, c["n"] + 2) if "univ" not in c else rng.choice([1, 2, 9, 10, 11, 50, 101])]
+             for v in range(nv) if rng.random() < 0.5]
+    order = _perm(rng, loop_vars(nv, tiles))
+    return mk_then(c, nv, ops, out, order, tiles, rng.choice(STYLES), trees)
 
 
 def _remap(tree, depth, cmap):
@@ -303,6 +349,36 @@ def gen(seed, tier):
                     c = mk_case(2, [[0, 1], [1]], [], order, tiles, style, 3, [A, b], "frac-exh")
                     c["var"] = {"vkind": "quarter", "reps": 2}
                     yield c
+    # the other spelling of a uniform tiling: `T / parts` (a partition COUNT) on a rank shared by two operands
+    # of the same declared shape; every 0/1 vector over 4 coordinates (incl. empty trailing coordinates)
+    dA = [[[0, [[0, 1], [3, 2]]], [1, [[1, 1], [2, -1], [3, 1]]], [2, [[0, 2]]]],
+          [[0, [[2, 1]]], [2, [[0, 1], [1, 1]]]]]
+    for ib, b in enumerate(rows4):
+        for ai, A in enumerate(dA):
+            for parts in range(1, 6):
+                step = (4 + parts - 1) // parts
+                order = [[3, 2, 0], [3, 0, 2], [0, 3, 2]][(ib + parts) % 3]
+                style = ("and", "lf", "tf", "lff")[(ib + ai + parts) % 4]
+                c = mk_case(2, [[0, 1], [1]], [0], order, [[1, step]], style, 4, [A, [[k, v + k] for k, v in b]], "tdiv-exh")
+                yield _to_tdiv(c, [[1, parts]])
+    # pipelines: T = A x B (kernel 1, any style), then Y_m = sum_n T_mn C_n on the OUTPUT OBJECT of kernel 1,
+    # untiled and with N tiled; B lacks a k-row the leader A has (also the last one visited)
+    pB = [[[0, [[0, 1], [2, 2]]], [2, [[1, 1]]]], [[0, [[1, 1]]], [1, [[0, 2], [2, 1]]]]]
+    pC = [[0, 1], [1, 2], [2, 3]]
+    stage2 = [([0, 2], []), ([3, 0, 2], [[1, 1]]), ([0, 3, 2], [[1, 2]]), ([3, 2, 0], [[1, 3]]), ([1, 0, 2], [[0, 2]])]
+    pi = 0
+    for r0 in rows:
+        for r1 in rows:
+            A = [[m, r] for m, r in enumerate((r0, r1)) if r]
+            for B in pB:
+                for s1 in ("lf", "and", "lff", "tf"):
+                    for (o2, t2) in stage2:
+                        pi += 1
+                        if quick and pi % 3:
+                            continue
+                        c = mk_case(3, [[0, 1], [1, 2]], [0, 2], [0, 2, 4], [], s1, 3, [A, B], "pipe-exh",
+                                    declared=pi % 8 < 6)
+                        yield mk_then(c, 2, [[0, 1], [1]], [0], o2, t2, ("and", "lf", "lff")[(pi // 3) % 3], [pC])
     # --- 3. named kernels: all loop orders, every tiling of one variable with every step, all placements
     rng = random.Random(seed)
     reps = 2 if quick else 30
@@ -327,6 +403,8 @@ def gen(seed, tier):
                             c = _sparse_coords(c)
                             if c["tiles"]:
                                 c["tiles"] = [[c["tiles"][0][0], rng.choice([1, 2, 9, 10, 11, 50, 101])]]
+                        if c["tiles"] and rng.random() < 0.25:
+                            c = _to_tdiv(c, [[c["tiles"][0][0], rng.randrange(1, n + 2)]])
                         yield _widen(rng, c)
     # --- 4. random programs: random expression, order, tiling of any subset, style
     nrand = 2500 if quick else 250000
@@ -344,6 +422,12 @@ def gen(seed, tier):
         if rng.random() < 0.1 and nv <= 2:
             c = _sparse_coords(c)
             c["tiles"] = [[v, rng.choice([1, 2, 9, 10, 11, 50, 101])] for v, _ in c["tiles"]]
+        if c["tiles"] and rng.random() < 0.25:
+            c = _to_tdiv(c, [[v, rng.randrange(1, n + 2)] for v, _ in c["tiles"] if rng.random() < 0.7])
+        tv = set(v for v, _ in c["tiles"])
+        if c["out"] and not (tv & set(c["out"])) and rng.random() < 0.12:
+            yield _rand_then(rng, c)        # the output object feeds a second kernel
+            continue
         yield _widen(rng, c)
 
 
@@ -489,33 +573,42 @@ class _Root:
         return self.fiber
 
 
-def prepare(case):
-    """build, tile and swizzle the operand tensors with the real library; make the output tensor"""
+def prepare(case, prev=None):
+    """build, tile and swizzle the operand tensors with the real library; make the output tensor.
+    An operand marked "prev" is not built: it IS the tensor object `prev` (an earlier kernel's output)."""
     ft = H.ft()
     n = case["n"]
     tiles = case["tiles"]
+    tdiv = dict((v, p) for v, p in case.get("tdiv") or [])      # tilings spelled `T / parts`
     var = case.get("var") or {}
     vk, fdef = var.get("vkind", "int"), var.get("fdefault", 0)
     opranks, zranks = plan(case)
     tensors = []
     for i, (op, target) in enumerate(zip(case["ops"], opranks)):
         d = len(op["ranks"])
-        f = _build(op["t"], d, vk, fdef)
+        f = None if op.get("prev") else _build(op["t"], d, vk, fdef)
         fmtU = (var.get("fmtU") or [[]] * len(opranks))[i]
-        if var.get("bare"):             # free fiber carrying its own rank attributes
+        if var.get("bare") and f is not None:             # free fiber carrying its own rank attributes
             if target and target[0] in fmtU:
                 f.getRankAttrs().setFormat("U")
                 f.getRankAttrs().setShape(n)
             tensors.append(_Root(f))
             continue
-        if case.get("declared", True):
+        if op.get("prev"):
+            T = prev
+        elif case.get("declared", True):
             sh = (var.get("shapes") or [n] * len(opranks))[i]
             T = ft.Tensor.fromFiber(rank_ids=[str(v) for v in op["ranks"]], fiber=f, shape=[sh] * d, default=0)
         else:       # no authoritative shape: the rank shapes (hence the active ranges) are estimated
             T = ft.Tensor.fromFiber(rank_ids=[str(v) for v in op["ranks"]], fiber=f, default=0)
         for v, step in tiles:
-            if v in op["ranks"]:
+            if v in op["ranks"] and v not in tdiv:
                 T = T.splitUniform(step, rankid=str(v))
+        for v, parts in tdiv.items():
+            if v in op["ranks"]:        # `/` splits the top rank: bring the rank up first
+                ids = T.getRankIds()
+                T = T.swizzleRanks([str(v)] + [x for x in ids if x != str(v)])
+                T = T / parts
         T = T.swizzleRanks([lname(l, tiles) for l in target])
         for l in target:
             if l in fmtU:
@@ -553,8 +646,22 @@ def run(case):
         case["impl"] = {"z": _canon(H.snapshot(root), 4 ** len(tensors) if q else 1),
                         "ops": [_canon(x, 4 if q else 1) for x in pre]}
         side["operands_unchanged"] = pre == [H.snapshot(T.getRoot()) for T in tensors]
+        if case.get("then"):            # pipeline: the output OBJECT of this kernel is operand 0 of the next
+            t2 = case["then"]
+            z1 = H.snapshot(root)
+            Z.setRankIds([str(v) for v in t2["ops"][0]["ranks"]])
+            case["impl"]["then"] = {"z": None, "ops": []}
+            mkz2, tensors2 = prepare(t2, prev=Z)
+            pre2 = [H.snapshot(T.getRoot()) for T in tensors2]
+            env2 = {"Fiber": ft.Fiber, "Payload": ft.Payload}
+            exec(compile(render(t2), "<kernel2>", "exec"), env2)
+            Z2 = mkz2()
+            env2["kernel"](Z2, *tensors2)
+            case["impl"]["then"] = {"z": _canon(H.snapshot(Z2.getRoot())), "ops": [_canon(x) for x in pre2]}
+            side["first_output_unchanged"] = z1 == H.snapshot(Z.getRoot())
     except Exception as e:      # a crash of a legal program is an observation
-        case["impl"] = {"z": None, "ops": []}
+        if not (case.get("then") and isinstance(case.get("impl"), dict) and "then" in case["impl"]):
+            case["impl"] = {"z": None, "ops": []}
         case["implerr"] = H.err_class(e)
         side["no_exception:" + H.err_class(e)] = False
     case["side"] = side
@@ -617,7 +724,7 @@ def extra_evidence(results):
         e = (c["nvars"], tuple(tuple(sorted(o["ranks"])) for o in c["ops"]), tuple(c["out"]))
         exprs.add(e)
         progs.add((e, tuple(c["order"]), tuple(tuple(t) for t in c["tiles"]), c["style"]))
-        b = c["tag"] if c["tag"] in ("shape", "dot-exh", "ew-exh", "cancel-exh", "nest-exh", "hoist-exh", "estim-exh", "fmt-exh", "reuse-exh", "frac-exh", "random") else "named"
+        b = c["tag"] if c["tag"] in ("shape", "dot-exh", "ew-exh", "cancel-exh", "nest-exh", "hoist-exh", "estim-exh", "fmt-exh", "reuse-exh", "frac-exh", "tdiv-exh", "pipe-exh", "random") else "named"
         blocks[b] = blocks.get(b, 0) + 1
     return {"distinct_expressions": len(exprs), "distinct_programs": len(progs), "generator_blocks": blocks}
 
@@ -626,7 +733,8 @@ def signature(case, verdict, failed):
     kinds = "/".join(sorted(f.split(":")[0] if f.startswith("no_exception") else f for f in failed))
     err = case.get("implerr", "")
     tiled = "tiled" if case["tiles"] else "untiled"
-    return f"{case['style']}:{tiled}:{kinds}{':' + err if err else ''}"
+    pipe = ":pipeline" if case.get("then") else ""
+    return f"{case['style']}:{tiled}{pipe}:{kinds}{':' + err if err else ''}"
 
 
 def _tree_shrinks(t):
@@ -657,5 +765,7 @@ def shrink_candidates(case):
             v = case["tiles"][j][0]
             c = dict(case)
             c["tiles"] = case["tiles"][:j] + case["tiles"][j + 1:]
+            if case.get("tdiv"):
+                c["tdiv"] = [x for x in case["tdiv"] if x[0] != v]
             c["order"] = [l for l in case["order"] if l != 2 * v + 1]
             yield c
